@@ -71,10 +71,11 @@ def obligations(tier):
             defines=dict(common["defines"], MODE=1, NINJ=1),
             unwind=lambda p: {"send_main~while (!flagexitasap": p["K"] + 2}, unwind_default=20, timeout=900,
             assumes=["symbolic non-decreasing clock (steps <= 100000 s), symbolic due times from pass/cleanup within +-200000 s of now; "
-                     "flagexitasap symbolic with a delivery outstanding (shutdown drain)"],
+                     "flagexitasap symbolic with a delivery outstanding (shutdown drain); 0..timeout seconds pass in every select(), which a HUP may "
+                     "interrupt (EINTR); 'now' in the reference is the true clock, not the daemon's cached value"],
             claim="at every select(): timeout 0 iff a scan is in progress or something is due; otherwise positive and "
                   "<= earliest-due - now + SLEEP_FUZZ",
-            expect_witnesses=["polls_when_due", "sleeps_until_due", "sleeps_while_draining"],
+            expect_witnesses=["polls_when_due", "sleeps_until_due", "sleeps_while_draining", "interrupted_after_sleeping"],
             **{k: v for k, v in common.items() if k != "defines"}),
         signals_obligation(tier),
     ]
